@@ -129,6 +129,7 @@ func RunTLC(o TLCOpts) (TLCResult, error) {
 	t0 := time.Now()
 	err = cmd.Run()
 	res.Wall = time.Since(t0)
+	Debugf("tlc %s %s: %.1fs", o.Module, cfg, res.Wall.Seconds())
 	res.Out = buf.String()
 	if ctx.Err() == context.DeadlineExceeded {
 		res.TimedOut = true
@@ -210,7 +211,90 @@ type JudgeResult struct {
 // Judge runs Trace_<module> over the events (one JSON value per line).  The trace
 // specification prints {"verdict":"REJECT",...} per unexplained case and one
 // {"verdict":"END","at":n,"accepted":k,"nontrivial":m} when every line was consumed.
+// Large logs are cut at case boundaries ("Config" sections, then "Req"/"Reset" events, the
+// section's Config repeated) and judged by several TLC processes in parallel.
 func Judge(module string, events [][]byte, extra map[string][]byte) (JudgeResult, error) {
+	const chunkMin = 12000
+	if len(events) <= chunkMin {
+		return judgeOne(module, events, extra, 0)
+	}
+	type evk struct {
+		Ev string `json:"ev"`
+	}
+	kinds := make([]string, len(events))
+	for i, e := range events {
+		var k evk
+		json.Unmarshal(e, &k)
+		kinds[i] = k.Ev
+	}
+	target := len(events)/16 + 1
+	if target < chunkMin {
+		target = chunkMin
+	}
+	type chunk struct {
+		evs    [][]byte
+		offset int // index in events of the first non-repeated line minus the number of prepended lines
+	}
+	var chunks []chunk
+	var cur [][]byte
+	curOff := 0
+	lastCfg := -1
+	for i := 0; i < len(events); i++ {
+		boundary := kinds[i] == "Config" || kinds[i] == "Req" || kinds[i] == "Reset"
+		if boundary && len(cur) >= target {
+			chunks = append(chunks, chunk{cur, curOff})
+			cur = nil
+			if kinds[i] != "Config" && lastCfg >= 0 {
+				cur = append(cur, events[lastCfg])
+				curOff = i - 1
+			} else {
+				curOff = i
+			}
+		}
+		if kinds[i] == "Config" {
+			lastCfg = i
+		}
+		cur = append(cur, events[i])
+	}
+	if len(cur) > 0 {
+		chunks = append(chunks, chunk{cur, curOff})
+	}
+	results := make([]JudgeResult, len(chunks))
+	errs := make([]error, len(chunks))
+	sem := make(chan struct{}, 8)
+	done := make(chan int)
+	for ci := range chunks {
+		go func(ci int) {
+			sem <- struct{}{}
+			results[ci], errs[ci] = judgeOne(module, chunks[ci].evs, extra, chunks[ci].offset)
+			<-sem
+			done <- ci
+		}(ci)
+	}
+	for range chunks {
+		<-done
+	}
+	var jr JudgeResult
+	jr.Ended = true
+	for ci := range chunks {
+		if errs[ci] != nil {
+			return jr, errs[ci]
+		}
+		r := results[ci]
+		jr.Rejects = append(jr.Rejects, r.Rejects...)
+		jr.Accepted += r.Accepted
+		jr.Nontriv += r.Nontriv
+		jr.TLC.Generated += r.TLC.Generated
+		jr.TLC.Distinct += r.TLC.Distinct
+		if r.TLC.Wall > jr.TLC.Wall {
+			jr.TLC.Wall = r.TLC.Wall
+		}
+	}
+	jr.EndAt = len(events) + 1
+	return jr, nil
+}
+
+func judgeOne(module string, events [][]byte, extra map[string][]byte, offset int) (JudgeResult, error) {
 	var jr JudgeResult
 	var buf bytes.Buffer
 	for _, e := range events {
@@ -221,7 +305,7 @@ func Judge(module string, events [][]byte, extra map[string][]byte) (JudgeResult
 	for k, v := range extra {
 		files[k] = v
 	}
-	r, err := RunTLC(TLCOpts{Module: module, Workers: 1, Files: files, Timeout: 20 * time.Minute, Heap: "8g"})
+	r, err := RunTLC(TLCOpts{Module: module, Workers: 1, Files: files, Timeout: 30 * time.Minute, Heap: "6g"})
 	jr.TLC = r
 	if err != nil {
 		return jr, err
@@ -245,7 +329,7 @@ func Judge(module string, events [][]byte, extra map[string][]byte) (JudgeResult
 		}
 		switch v.Verdict {
 		case "REJECT":
-			jr.Rejects = append(jr.Rejects, Reject{Case: v.Case, At: v.At, Event: v.Event, Why: string(v.Why), KF: v.KF})
+			jr.Rejects = append(jr.Rejects, Reject{Case: v.Case, At: v.At + offset, Event: v.Event, Why: string(v.Why), KF: v.KF})
 		case "END":
 			jr.Ended = true
 			jr.EndAt = v.At
